@@ -103,7 +103,7 @@ def run(tier):
     for lad in ladders:
         for e in ENTRIES:
             for f in FAMILIES:
-                if (e, f, lad[0]) not in by:
+                if any((e, f, k) not in by for k in lad):
                     continue
                 rs = [by[(e, f, k)] for k in lad]
                 bad = [r for r in rs if "total" not in r]
